@@ -11,7 +11,7 @@ use std::collections::BTreeSet;
 const TYPES: [&str; 3] = ["AWS::S3::Bucket", "AWS::EC2::Volume", "Custom::Thing"];
 
 fn values() -> Vec<V> {
-    vec![s("s"), s("s t"), i(5), V::Bool(true), s("5"), f(1.5), i(-5), l(vec![i(1), s("a")]), m(vec![("k", i(1))]), V::Null, s(" s"), s("q\"t"), s("b\\"), s("it's"), f(-1.5), s(""), s("true"), s("make\tall"), l(vec![]), V::Map(vec![]), m(vec![("Rules", l(vec![]))]), l(vec![V::Map(vec![]), l(vec![])])]
+    vec![s("s"), s("s t"), i(5), V::Bool(true), s("5"), f(1.5), i(-5), l(vec![i(1), s("a")]), m(vec![("k", i(1))]), V::Null, s(" s"), s("q\"t"), s("b\\"), s("it's"), f(-1.5), s(""), s("true"), s("make\tall"), i(0), s("0"), f(0.0), l(vec![]), V::Map(vec![]), m(vec![("Rules", l(vec![]))]), l(vec![V::Map(vec![]), l(vec![])])]
 }
 
 #[derive(Clone, Debug)]
